@@ -257,6 +257,8 @@ class P(Prop):
         ("TracklibVerif.Props.C18", "TV.C18.compare_correct", "compare in the modes DTW / FRECHET on non-empty tracks over an ordered field: succeeds; FRECHET / p = inf: the discrete Frechet distance (least over couplings of the largest link); finite p: (score/nb_links)**(1/p) with score the optimum and max(n1,n2) <= nb_links <= n1+n2-1 the length of the returned optimal coupling"),
         ("TracklibVerif.Props.C18", "TV.C18.compare_fdtw_correct", "compare in the mode FDTW under the hypotheses of match_fdtw_correct: succeeds; the value is cmpValue of a coupling whose score is the optimum (p = inf: the discrete Frechet distance; finite p: (score/nb_links)**(1/p), max(n1,n2) <= nb_links <= n1+n2-1)"),
         ("TracklibVerif.Props.C18", "TV.C18.compare_mean_power", "with exact arithmetic (root k a k-th root on non-negative numbers) compare(DTW, p = k)**k * nb_links = score = least sum of d**k over all couplings"),
+        ("TracklibVerif.Props.C18", "TV.C18.cost_unit_invariant", "every point distance multiplied by c > 0: _dtw returns the same coupling, nb_links and pair lists, the score multiplied by c**p (c for p = inf, 1 for p = 0): no absolute quantity enters the computation"),
+        ("TracklibVerif.Props.C18", "TV.C18.unit_invariant", "ENUCoords, dim 1/2/3: every coordinate of both tracks multiplied by c > 0 (another unit) gives the same coupling and the score multiplied by c**p, for a homogeneous sqrt (the real one; in floats exactly for c a power of two)"),
         ("TracklibVerif.Props.C18", "TV.C18.costBack_nonneg", "accumulated costs are non-negative when the point distance is"),
         ("TracklibVerif.Props.C18", "TV.C18.npow_nonneg", "B**k >= 0 for B >= 0"),
     ]
